@@ -457,7 +457,10 @@ func (e *Engine) verifyFunction(fn *ssa.Function, c *Contract) (err error) {
 				err = fmt.Errorf("%s: %s", e.curFunc, ee.msg)
 				return
 			}
-			panic(r)
+			if os.Getenv("VCGO_PANIC") != "" {
+				panic(r)
+			}
+			err = fmt.Errorf("%s: internal engine failure: %v (%s)", e.curFunc, r, panicSite())
 		}
 	}()
 	if fn.Blocks == nil {
